@@ -262,14 +262,14 @@ func runC25(c *engine.Ctx) {
 			}
 			nAlloc++
 			size := engine.Strip(ci.Common.Args[1])
-			guard := false
-			for _, cd := range engine.InstrConds(ci.Instr) {
-				if b, ok := cd.V.(*ssa.BinOp); ok && engine.Strip(b.X) == size {
+			guard := c.P.GuardedHereOrAtCallers(ci.Instr, size, func(cd engine.Cond, target ssa.Value) bool {
+				if b, ok := cd.V.(*ssa.BinOp); ok && cd.R(b.X) == target {
 					if k, ok := engine.ConstInt(b.Y); ok && k == 0 && ((b.Op == token.GTR && cd.Pol) || (b.Op == token.NEQ && cd.Pol) || (b.Op == token.EQL && !cd.Pol)) {
-						guard = true
+						return true
 					}
 				}
-			}
+				return false
+			})
 			c.Decide(r3, engine.FuncName(f)+"|AllocateBlockMemory", ci.Instr.Pos(), guard,
 				"the allocator is consulted only for size > 0",
 				"the allocator is consulted even for size 0: the allocator grants at once only when the peer has nothing waiting, so a zero-size message built on a manager loop for a stalled, full peer waits behind that peer's pending allocation and stalls the loop for every peer")
